@@ -309,6 +309,14 @@ def envelope_cases() -> List[Dict[str, Any]]:
         out.append({"kind": "envelope", "wire": {"jsonrpc": "2.0", "id": mid,
                                                  "error": {"code": -32000, "message": "m", "data": {"d": None}}},
                     "expect": "error"})
+    # ids written as integral floats (1.0 is a legal JSON number): whatever a backend makes of them, both must make the
+    # same of them (no claim on the JSON type here, hence a separate flag)
+    for mid in (1.0, 7.0, -3.0, 0.0, 2.0 ** 53):
+        out.append({"kind": "envelope", "wire": {"jsonrpc": "2.0", "id": mid, "method": "tools/call", "params": {"a": 1}},
+                    "expect": "request", "float_id": True})
+        out.append({"kind": "envelope", "wire": {"jsonrpc": "2.0", "id": mid, "result": {"v": 1}}, "expect": "response", "float_id": True})
+        out.append({"kind": "envelope", "wire": {"jsonrpc": "2.0", "id": mid, "error": {"code": -32000, "message": "m"}},
+                    "expect": "error", "float_id": True})
     return out
 
 
